@@ -295,6 +295,9 @@ def _conj(v):
     return Table(v.shape, {k: one(x) for k, x in v.data.items()})
 
 
+_INT_OPS = {ast.Add: lambda a, b: a + b, ast.Sub: lambda a, b: a - b, ast.Mult: lambda a, b: a * b, ast.FloorDiv: lambda a, b: a // b, ast.Mod: lambda a, b: a % b,
+            ast.BitAnd: lambda a, b: a & b, ast.BitOr: lambda a, b: a | b, ast.BitXor: lambda a, b: a ^ b,
+            ast.LShift: lambda a, b: a << b if 0 <= b < 64 else (_ for _ in ()).throw(ValueError()), ast.RShift: lambda a, b: a >> b if 0 <= b < 64 else (_ for _ in ()).throw(ValueError())}
 _CURRENT_CALL: list = []
 _DIVISORS: list = []  # the sums that were divided by since the list was last cleared (E19.act asks where they vanish)
 
@@ -660,6 +663,10 @@ class Interp:
             l, r = self.ev(e.left, env), self.ev(e.right, env)
             if isinstance(l, bool) and isinstance(r, bool):
                 return (l and r) if isinstance(e.op, ast.BitAnd) else (l or r)
+            if isinstance(l, (set, frozenset)) and isinstance(r, (set, frozenset)):
+                return (l & r) if isinstance(e.op, ast.BitAnd) else (l | r)
+            if isinstance(l, int) and isinstance(r, int) and not isinstance(l, bool) and not isinstance(r, bool):
+                return _INT_OPS[type(e.op)](l, r)
             return Opaque("& / | of values that are not truth values")
         if isinstance(e, ast.UnaryOp) and isinstance(e.op, ast.USub):
             v = self.ev(e.operand, env)
@@ -696,6 +703,8 @@ class Interp:
                 return LP.const(Fraction(l, r))
             if isinstance(l, int) and isinstance(r, int) and not isinstance(l, bool) and not isinstance(r, bool) and isinstance(e.op, (ast.FloorDiv, ast.Mod)) and r != 0:
                 return l // r if isinstance(e.op, ast.FloorDiv) else l % r
+            if isinstance(l, int) and isinstance(r, int) and not isinstance(l, bool) and not isinstance(r, bool) and isinstance(e.op, (ast.LShift, ast.RShift, ast.BitXor)) and 0 <= r < 64:
+                return _INT_OPS[type(e.op)](l, r)
             if isinstance(e.op, ast.Mult) and ((isinstance(l, (tuple, list)) and isinstance(r, int)) or (isinstance(r, (tuple, list)) and isinstance(l, int))):
                 seq, k_ = (l, r) if isinstance(l, (tuple, list)) else (r, l)
                 if not isinstance(k_, bool) and 0 <= k_ <= 8:
@@ -826,6 +835,15 @@ class Interp:
             return Opaque("subscript")
         if isinstance(e, ast.Call):
             return self.call(e, env)
+        if isinstance(e, ast.BoolOp):
+            # truth values only, with Python's short circuit: the first operand that decides the result ends the evaluation
+            for v_ in e.values:
+                x_ = self.ev(v_, env)
+                if not isinstance(x_, bool):
+                    return Opaque("and / or of a value that is not a truth value")
+                if x_ is (not isinstance(e.op, ast.And)):
+                    return x_
+            return isinstance(e.op, ast.And)
         if isinstance(e, ast.Compare) and len(e.ops) == 1:
             l, r = self.ev(e.left, env), self.ev(e.comparators[0], env)
             op = e.ops[0]
@@ -838,6 +856,10 @@ class Interp:
                 table = {ast.Eq: l == r, ast.NotEq: l != r, ast.Lt: l < r, ast.LtE: l <= r, ast.Gt: l > r, ast.GtE: l >= r}
                 if type(op) in table:
                     return table[type(op)]
+            if isinstance(l, (set, frozenset)) and isinstance(r, (set, frozenset)) and isinstance(op, (ast.Eq, ast.NotEq)):
+                return (l == r) == isinstance(op, ast.Eq)
+            if isinstance(r, (set, frozenset)) and isinstance(l, int) and not isinstance(l, bool) and isinstance(op, (ast.In, ast.NotIn)):
+                return (l in r) == isinstance(op, ast.In)
             if isinstance(l, (tuple, list)) and isinstance(r, (tuple, list)) and isinstance(op, (ast.Eq, ast.NotEq)) \
                     and all(isinstance(x, int) for x in list(l) + list(r)):
                 return (tuple(l) == tuple(r)) == isinstance(op, ast.Eq)
@@ -1076,6 +1098,13 @@ class Interp:
                     return LP.const(1 if name == "ones" else 0)  # a 0-d array
                 if shp and all(isinstance(x, int) for x in shp):
                     return Table.full(shp, lambda idx: LP.const(1 if name == "ones" else 0))
+            if name == "fill_diagonal" and len(e.args) == 2 and not e.keywords:
+                m_, v_ = self.ev(e.args[0], env), self.ev(e.args[1], env)
+                if isinstance(m_, Table) and len(m_.shape) == 2 and isinstance(v_, (int, LP)) and not isinstance(v_, bool):
+                    for i_ in range(min(m_.shape)):
+                        m_.data[(i_, i_)] = self.lp(v_)
+                    return None
+                raise Unknown("fill_diagonal of this")
             if name in ("zeros_like", "ones_like") and len(e.args) == 1:
                 v = self.ev(e.args[0], env)
                 if isinstance(v, Table):
@@ -1271,10 +1300,20 @@ class Interp:
                 out_ = self.structural(name, e, env)
                 if out_ is not None:
                     return out_
-            if name in ("tuple", "list") and len(e.args) == 1 and isinstance(f, ast.Name):
+            if name in ("tuple", "list", "sorted") and len(e.args) == 1 and isinstance(f, ast.Name) and not e.keywords:
                 v = self.ev(e.args[0], env)
-                if isinstance(v, (tuple, list, range)):
+                if isinstance(v, (set, frozenset)) and all(isinstance(x, int) for x in v):
+                    v = sorted(v)  # (small non-negative integers: the order CPython iterates such a set in)
                     return tuple(v) if name == "tuple" else list(v)
+                if isinstance(v, (tuple, list, range)) and name != "sorted":
+                    return tuple(v) if name == "tuple" else list(v)
+                if isinstance(v, (tuple, list, range)) and all(isinstance(x, int) for x in v):
+                    return sorted(v)
+            if name in ("set", "frozenset") and len(e.args) <= 1 and isinstance(f, ast.Name) and not e.keywords:
+                v = self.ev(e.args[0], env) if e.args else ()
+                if isinstance(v, (tuple, list, range, set, frozenset)) and all(isinstance(x, int) and not isinstance(x, bool) for x in v):
+                    return set(v)
+                return Opaque("set of values that are not integers")
             if name == "combinations" and len(e.args) == 2:
                 it_, r_ = self.ev(e.args[0], env), self.ev(e.args[1], env)
                 if isinstance(it_, (list, range, tuple)) and isinstance(r_, int) and len(it_) <= 6:
@@ -1470,10 +1509,32 @@ class Interp:
     def run_method(self, m: FunctionInfo, recv, args: list, kwargs: dict):
         m = self.prog.body_of(m)
         names = [x.arg for x in m.node.args.args]
-        env2 = {names[0]: recv} if names else {}
-        for nm, v in zip(names[1:], args):
-            env2[nm] = v
+        if m.is_staticmethod:
+            # obj.helper(a, b) on a static method binds a, b to the parameters: there is no receiver
+            env2 = dict(zip(names, args))
+        elif m.is_classmethod:
+            env2 = {names[0]: Opaque("the class")} if names else {}
+            for nm, v in zip(names[1:], args):
+                env2[nm] = v
+        else:
+            env2 = {names[0]: recv} if names else {}
+            for nm, v in zip(names[1:], args):
+                env2[nm] = v
         env2.update(kwargs)
+        # parameters the call leaves out take their defaults
+        a_ = m.node.args
+        for nm, d in zip(names[len(names) - len(a_.defaults):], a_.defaults):
+            if nm not in env2:
+                try:
+                    env2[nm] = self.ev(d, {})
+                except (Unknown, NotPolynomial):
+                    env2[nm] = Opaque("default")
+        for kwarg, d in zip(a_.kwonlyargs, a_.kw_defaults):
+            if kwarg.arg not in env2 and d is not None:
+                try:
+                    env2[kwarg.arg] = self.ev(d, {})
+                except (Unknown, NotPolynomial):
+                    env2[kwarg.arg] = Opaque("default")
         sub = Interp(self.prog, self.cls, self.assume)
         sub.depth = self.depth + 1
         sub.owner = m.cls  # the class whose method body runs: `super().name(...)` continues along its MRO
@@ -1617,6 +1678,14 @@ class Interp:
                 v = None
             if isinstance(v, bool):
                 return v
+        if isinstance(t, (ast.BinOp, ast.Name, ast.Constant)):
+            # the truth of a python integer / None the code computes itself (`if power & 1:`, `while n:`)
+            try:
+                v = self.ev(t, env)
+            except (Unknown, NotPolynomial):
+                v = Opaque("")
+            if v is None or (isinstance(v, int) and not isinstance(v, bool)):
+                return bool(v)
         if isinstance(t, ast.Call) and (t.func.attr if isinstance(t.func, ast.Attribute) else getattr(t.func, "id", "")) == "isinf" and len(t.args) == 1:
             v = self.ev(t.args[0], env)
             if isinstance(v, LP) and len(v.t) == 1:
@@ -1724,6 +1793,37 @@ class Interp:
                     v = Opaque(str(ex))
                 self.assign(st.target, v, env)
             return  # a bare annotation binds nothing
+        if isinstance(st, ast.AugAssign) and isinstance(st.target, ast.Name) and isinstance(env.get(st.target.id), int) and not isinstance(env.get(st.target.id), bool) \
+                and type(st.op) in _INT_OPS:
+            # a python integer (a counter, an exponent) updated with an integer: computed
+            try:
+                v_ = self.ev(st.value, env)
+            except (Unknown, NotPolynomial):
+                v_ = None
+            if isinstance(v_, int) and not isinstance(v_, bool):
+                try:
+                    env[st.target.id] = _INT_OPS[type(st.op)](env[st.target.id], v_)
+                except (ValueError, ZeroDivisionError, OverflowError):
+                    env[st.target.id] = Opaque("integer operation")
+                return
+        if isinstance(st, ast.While) and not st.orelse and not any(isinstance(x, (ast.Break, ast.Continue)) for x in ast.walk(st)):
+            # a loop whose test is decided each time round (an integer counting down): unrolled, at most 64 times
+            for _round in range(65):
+                try:
+                    go = self.test(st.test, env)
+                except Unknown as ex_t:
+                    if isinstance(ex_t, RaisedIn):
+                        raise
+                    go = None
+                if go is False:
+                    return
+                if go is None or _round == 64:
+                    break
+                self.block(st.body, env)
+            self.forget_written(st, env, "written in a loop whose test is not decided")
+            if any(isinstance(x, (ast.Return, ast.Raise)) for x in ast.walk(st)):
+                self.uncertain_flow = f"while statement at line {st.lineno}"
+            return
         if isinstance(st, ast.AugAssign):
             ops = {ast.Add: lambda a, b: a + b, ast.Sub: lambda a, b: a - b, ast.Mult: lambda a, b: a * b, ast.Div: _div}
             if type(st.op) not in ops:
@@ -2712,8 +2812,8 @@ class TensorSym(SymObject):
     def __init__(self, table: Table, n_cov: int, n_con: int, kinds: set[str] | None = None, eps: bool = False):
         self.array = table
         self.tensor_shape = (n_cov, n_con)
-        self._covariant_indices = list(range(n_cov))
-        self._contravariant_indices = list(range(n_cov, n_cov + n_con))
+        self._covariant_indices = set(range(n_cov))  # (sets, as in the library: code under interpretation compares and unites them)
+        self._contravariant_indices = set(range(n_cov, n_cov + n_con))
         self.rank = n_cov + n_con
         self.free_indices = 0
         self.shape = table.shape
@@ -2768,7 +2868,7 @@ class SymDiagram(SymObject):
                 raise Unknown("diagram node that is not a symbolic tensor")
             for x in (a, b):
                 if id(x) not in unused:
-                    unused[id(x)] = (list(x._covariant_indices), list(x._contravariant_indices))
+                    unused[id(x)] = (sorted(x._covariant_indices), sorted(x._contravariant_indices))
                     nodes.append(x)
             fs, ft = unused[id(a)][0], unused[id(b)][1]
             if not fs or not ft:
@@ -3388,7 +3488,8 @@ def rule_action_values(run: Run, prog: Program, part: str = "incidence") -> int:
                 if a_ and isinstance(a_[0], int) and isinstance(a_[1] if len(a_) > 1 else k_.get("covariant", True), bool) else Opaque("eps"),
                 "TensorDiagram": lambda a_, k_: SymDiagram([tuple(x) for x in a_]) if all(isinstance(x, (list, tuple)) and len(x) == 2 for x in a_) else Opaque("diagram"),
                 "from_tensor": lambda a_, k_: a_[-1], "_divide_by_power_of_two": lambda a_, k_: a_[0], "join": dual_call, "meet": dual_call,
-                "is_numerical_scalar": lambda a_, k_: isinstance(a_[0], (int, LP)) and not isinstance(a_[0], bool)}
+                "is_numerical_scalar": lambda a_, k_: isinstance(a_[0], (int, LP)) and not isinstance(a_[0], bool),
+                "matvec": _matvec_hook, "matrix_power": _matrix_power_hook}
 
     class TransSym(TensorSym):
         def __init__(self, table: Table):
@@ -3631,10 +3732,11 @@ def rule_action_values(run: Run, prog: Program, part: str = "incidence") -> int:
                 judge(label, c_inverse(point), "the matrix of inverse() applied to t*x is a non-zero polynomial multiple of x",
                       "the matrix of inverse() applied to t*x is not a multiple of x: the inverse does not undo the action", n)
             if n == 3:
-                for k in (0, 1, 2, 3, -1, -2):
+                # 5, 6, 7: every pattern of odd / even steps an exponentiation by squaring can take (the chain of the tree is uniform in k)
+                for k in (0, 1, 2, 3, -1, -2, 5, 6, 7, -7):
                     n_ob += 1
                     judge(f"t**{k} on a point of {space}", c_power(k), f"t**{k} acts like {abs(k)} application(s) of t" + (" undone" if k < 0 else ""),
-                          f"t**{k} does not act like {abs(k)} application(s) of t" + (" undone" if k < 0 else ""), n)
+                          f"t**{k} does not act like {abs(k)} application(s) of t" + (" undone" if k < 0 else ""), n, deep=abs(k) > 3)
             for label, point in ((f"(s * t) * x and s * (t * x) for a point of {space}", True), (f"(s * t) * x and s * (t * x) for a line of {space}", False)):
                 if n == 4 and not point:
                     continue  # (the adjugate of a product of two symbolic 4x4 matrices: out of budget)
@@ -3645,6 +3747,29 @@ def rule_action_values(run: Run, prog: Program, part: str = "incidence") -> int:
 
 
 # ---------------------------------------------------------------------------------------------- tangent, polar, dual of a quadric, as values (C14)
+def _matvec_hook(a_, k_):
+    """matvec(m, v, transpose_a=, adjoint_a=) on tables"""
+    if len(a_) == 2 and isinstance(a_[0], Table) and isinstance(a_[1], Table) and len(a_[0].shape) == 2 and set(k_) <= {"transpose_a", "adjoint_a"} \
+            and all(isinstance(x, bool) for x in k_.values()):
+        m_ = a_[0]
+        if k_.get("transpose_a") or k_.get("adjoint_a"):
+            m_ = Table((m_.shape[1], m_.shape[0]), {(j, i): x for (i, j), x in m_.data.items()})
+        if k_.get("adjoint_a"):
+            m_ = _conj(m_)
+        return _dot(m_, a_[1])
+    return Opaque("matvec")
+
+
+def _matrix_power_hook(a_, k_):
+    if len(a_) == 2 and isinstance(a_[0], Table) and len(a_[0].shape) == 2 and a_[0].shape[0] == a_[0].shape[1] and isinstance(a_[1], int) and 0 <= a_[1] <= 6 and not k_:
+        n_ = a_[0].shape[0]
+        out = Table.full((n_, n_), lambda idx: LP.const(1 if idx[0] == idx[1] else 0))
+        for _ in range(a_[1]):
+            out = _dot(out, a_[0])
+        return out
+    return Opaque("matrix_power")
+
+
 class Tested(SymObject):
     """the value a predicate compares with zero (np.isclose(value, 0, atol=...)): the predicate holds exactly where the polynomial vanishes"""
 
